@@ -148,6 +148,7 @@ def parse_segments(text, version=None, encoding_chars=None, validation_level=Non
     parents_refs = [(None, references)]
     current_parent = None
     for s in text.split(segment_sep):
+        s = s.strip()
         if len(s) > 0:
             segment_name = s[:3]
             saved_state = (list(parents_refs), current_parent)
